@@ -81,7 +81,7 @@ def run_case(case, ctx):
     dt = desc["dt"]
     kT = U.KB_INT_PER_K * desc["T"]
 
-    def build_system(scale=1.0, rot=None, perm=None, J=None, shift_cm=0.0):
+    def build_system(scale=1.0, rot=None, perm=None, J=None, shift_cm=0.0, mult=1):
         d = dict(desc)
         order = list(range(N)) if perm is None else list(perm)
         d["E"] = [desc["E"][i] + shift_cm for i in order]
@@ -104,7 +104,7 @@ def run_case(case, ctx):
             mol.set_transition_environment((0, 1), cf)
             mol.set_electronic_rwa([0, 1])
             return mol, t, d
-        agg, t, cfs = build.make_aggregate(d)
+        agg, t, cfs = build.make_aggregate(d, mult=mult)
         return agg, t, d
 
     # where the lines sit in the window: shift all site energies so that the mean transition energy is at the chosen offset from the RWA frequency
@@ -245,6 +245,15 @@ def run_case(case, ctx):
         # monomers carry a radiative width proportional to |d|^2 (~1e-9 1/fs): exact scaling is broken at the 1e-7 level there
         ctx.check("scales-with-dipole-squared", float(numpy.max(numpy.abs(S1 - s * s * S))), (1e-5 if N == 1 else 1e-9) * s * s * smax, dict(det, factor=s))
         ctx.check("rotation-invariant", float(numpy.max(numpy.abs(S2 - S))), 1e-9 * smax, det)
+        if N > 1:
+            # the linear spectrum only involves the one-exciton band: an aggregate built with two-exciton states gives the same spectrum
+            with ctx.lib("aggregate built with mult=2", mechanism=None):
+                o5, t5, _d = build_system(mult=2)
+                w5, S5, _r = spectrum(o5, t5)
+            ok5 = S5.shape == S.shape
+            ctx.require("spectrum==direct-fourier-sum", ok5, dict(det, what="shape of the spectrum of the aggregate built with mult=2"))
+            if ok5:
+                ctx.check("spectrum==direct-fourier-sum", float(numpy.max(numpy.abs(S5 - S))), 1e-9 * smax, dict(det, what="aggregate built with two-exciton states (mult=2) vs mult=1"))
         if N > 1:
             import itertools
             perms = list(itertools.permutations(range(N)))[1:] if N <= 3 else [tuple(rng.permutation(N)) for _ in range(3)]
